@@ -1,7 +1,7 @@
 /-
 C02 - reorganise only to a strictly heavier valid branch above the last checkpoint.
 -/
-import Neutrino.Lemmas.BlockMgr
+import Neutrino.Lemmas.BlockMgrC02
 namespace Neutrino.BM
 
 /-- **The only way stored headers are replaced** (outside a checkpoint-failure rollback) is
@@ -46,34 +46,217 @@ theorem C02_unlinked_unchanged (c : Cfg) (s : State) (p : Nat) (hs : List Nat) (
   · simp [h1]
   · simp [h1, h]
 
-/-- Full statements not yet proved in Lean (checked on every run by the oracles `c02Store` /
-`expectAfter` on the real system's dumps).  `knownWalk = work of the displaced suffix` needs the
-whole in-memory list to be the top of the log (a stronger `ListAnchored`), `adopt_full` a second
-induction over the loop. -/
+/-- The letter of the property for one `headers` event.  FALSE on the code as it is because of
+finding F16 (`C02_work_monotone_counterexample` below is the same instance): kept visible. -/
 def C02_replace_only_heavier : Prop :=
-  ∀ (c : Cfg) (peers : List Peer) (es : List Ev) (p : Nat) (hs : List Nat), 1 ≤ c.win →
+  ∀ (c : Cfg) (peers : List Peer) (es : List Ev) (p : Nat) (hs : List Nat), CpsOk c.cps → 1 ≤ c.win →
     let s := run c (init c peers) es
     let s' := (handleHeaders c s p hs).1
     let k := commonLen s.log s'.log
-    s.log.drop k ≠ [] → ¬ excusedRollback c hs s.log s'.log = true →
+    s.log.drop k ≠ [] → isPrefix s'.log s.log = false →
       (s'.log.drop k).all c.tbl.valid = true ∧ sumWork c.tbl (s.log.drop k) < sumWork c.tbl (s'.log.drop k) ∧
       floorAt c.cps (tipHeight s.log) ≤ k - 1
 
-def C02_adopt_full : Prop :=
-  ∀ (c : Cfg) (peers : List Peer) (es : List Ev) (p : Nat) (hs : List Nat), 1 ≤ c.win →
+/-- **Replace only by a heavier valid branch above the last checkpoint - every history.**
+Whenever a `headers` message makes a previously stored header disappear, then either the result
+is a mere prefix of what was stored (the checkpoint-failure rollback), or: the store keeps its
+prefix up to a fork point `bh` at or above the newest checkpoint the chain has passed, the
+headers put on top are a prefix `ext` of the branch `h :: suf` the message offered after the
+headers already known, EVERY header of that offered branch is valid, the offered branch has
+STRICTLY more work than the displaced suffix (the real displaced suffix: `knownWalk` equals it
+because the whole in-memory list is the top of the stored chain), the sender is the sync peer or
+the node is current, and the branch is stored in full unless it ran into the next checkpoint
+(then the stored tip IS that checkpoint - finding F16).  Any table, checkpoints, window, peers. -/
+theorem C02_replace_only_heavier_partial (c : Cfg) (ok : CpsOk c.cps) (hw : 1 ≤ c.win) (peers : List Peer)
+    (es : List Ev) (p : Nat) (hs : List Nat) :
     let s := run c (init c peers) es
-    linked c.tbl hs = true → hs.all c.tbl.valid = true → (∀ h, hs.head? = some h → c.tbl.parent h = some (tipId s.log)) →
-    s.ncp = none → (handleHeaders c s p hs).1.log = s.log ++ hs
+    let s' := (handleHeaders c s p hs).1
+    s.log.drop (commonLen s.log s'.log) ≠ [] → ReplaceShape c p s hs s'.log := by
+  intro s s' hrem
+  exact replace_shape c ok hw p s (inv_run c ok hw _ es (inv_init c ok peers)) hs hrem
 
-/-- NOTE: false by the letter on the code as it is (finding F16, known-findings.txt
-`reorg-truncated-at-checkpoint`): the reorg arm weighs the whole rest of the message but the
-loop breaks at the next checkpoint, so the stored part of a heavier branch can be lighter than
-what it displaced.  Kept as the full statement; the oracle reports that shape separately. -/
-def C02_work_monotone : Prop :=
-  ∀ (c : Cfg) (peers : List Peer) (es : List Ev) (e : Ev), 1 ≤ c.win →
+/-- in particular: when the offered branch is stored in full, the new suffix is valid, strictly
+heavier than the displaced one, and forks at or above the newest passed checkpoint -/
+theorem C02_replace_heavier_when_full (c : Cfg) (p : Nat) (s : State) (hs out : List Nat)
+    (h : ReplaceShape c p s hs out) (hnp : isPrefix out s.log = false) :
+    ∃ bh h' suf ext, out = s.log.take (bh + 1) ++ h' :: ext ∧ floorAt c.cps (tipHeight s.log) ≤ bh ∧
+      (h' :: suf).all c.tbl.valid = true ∧ sumWork c.tbl (s.log.drop (bh + 1)) < sumWork c.tbl (h' :: suf) ∧
+      (ext = suf ∨ ext.length < suf.length) := by
+  rcases h with h | ⟨bh, h', suf, ext, pre, _, _, hout, _, _, _, _, hval, hfl, hwork, _, hcase⟩
+  · rw [h] at hnp; cases hnp
+  · refine ⟨bh, h', suf, ext, hout, hfl, hval, hwork, ?_⟩
+    rcases hcase with h1 | ⟨h1, _⟩
+    · exact Or.inl h1
+    · exact Or.inr h1
+
+/-- **Adopt in full - every history**: a fully valid, internally linked batch that extends the
+stored tip and does not reach the next checkpoint's height is stored in full, whoever sent it. -/
+theorem C02_adopt_full (c : Cfg) (ok : CpsOk c.cps) (hw : 1 ≤ c.win) (peers : List Peer) (es : List Ev)
+    (p : Nat) (hs : List Nat) :
     let s := run c (init c peers) es
-    (∀ p hs, e = .headers p hs → ¬ cpMismatch c hs = true) →
+    linked c.tbl hs = true → hs.all c.tbl.valid = true →
+    (∀ h, hs.head? = some h → c.tbl.parent h = some (tipId s.log)) →
+    (∀ cp, s.ncp = some cp → tipHeight s.log + hs.length < cp.height) →
+    (handleHeaders c s p hs).1.log = s.log ++ hs := by
+  intro s hlk hval hconn hnocp
+  have inv : Inv c s := inv_run c ok hw _ es (inv_init c ok peers)
+  simp only [handleHeaders]
+  by_cases h1 : hs = []
+  · simp [h1]
+  · simp only [h1, ↓reduceIte, hlk, Bool.not_true, Bool.false_eq_true]
+    have := connect_run c ok hw p hs s {} [] hlk (LIf_of_inv c s {} hs inv rfl rfl) (by simpa using hconn)
+    have hpos := inv.good.length_pos
+    simp only [List.append_nil] at this
+    rcases this with ⟨hinv, _⟩ | h2 | ⟨d, cp, _, hd, hn, hlen, _, _⟩ | ⟨d, cp, _, hd, hn, hlen, _⟩
+    · rw [hval] at hinv; cases hinv
+    · exact h2
+    · have := hnocp cp hn; simp only [tipHeight] at this; omega
+    · have := hnocp cp hn; simp only [tipHeight] at this; omega
+
+/-- the same for a strictly heavier valid branch from a peer the node listens to: if the message
+starts with the fork's first header and does not reach the next checkpoint, it is stored in full -/
+theorem C02_adopt_full_reorg (c : Cfg) (ok : CpsOk c.cps) (hw : 1 ≤ c.win) (peers : List Peer) (es : List Ev)
+    (p h : Nat) (suf : List Nat) (bh : Nat) :
+    let s := run c (init c peers) es
+    linked c.tbl (h :: suf) = true → c.tbl.parent h ≠ some (tipId s.log) →
+    reorgDecision c s p ⟨tipId s.log, tipHeight s.log⟩ h suf = .adopt bh →
+    (∀ cp, s.ncp = some cp → bh + 1 + suf.length < cp.height) →
+    (handleHeaders c s p (h :: suf)).1.log = s.log.take (bh + 1) ++ h :: suf := by
+  intro s hlk hpar hd hnocp
+  have inv : Inv c s := inv_run c ok hw _ es (inv_init c ok peers)
+  simp only [handleHeaders, List.cons_ne_nil, ↓reduceIte, hlk, Bool.not_true, Bool.false_eq_true]
+  obtain ⟨hbh, hc⟩ := reorg_run c ok hw p h suf s {} [] inv rfl rfl hlk hpar bh hd
+  obtain ⟨_, hval, _, _, _⟩ := reorg_adopt_facts c s p _ h suf bh hd
+  have hsuf : suf.all c.tbl.valid = true := by
+    simp only [List.all_cons, Bool.and_eq_true] at hval; exact hval.2
+  have hlen : (s.log.take (bh + 1)).length = bh + 1 := by simp only [tipHeight] at hbh; simp; omega
+  rcases hc with ⟨hinv, _⟩ | h2 | ⟨d, cp, _, hd', hn, hl, _, _⟩ | ⟨d, cp, _, hd', hn, hl, _⟩
+  · rw [hsuf] at hinv; cases hinv
+  · rw [h2, List.append_assoc]; rfl
+  · have := hnocp cp hn; simp [hlen] at hl; omega
+  · have := hnocp cp hn; simp [hlen] at hl; omega
+
+/-- The letter of "total work never decreases except on a checkpoint-failure rollback".
+FALSE on the code as it is (finding F16); see the counterexample and the partial theorem. -/
+def C02_work_monotone : Prop :=
+  ∀ (c : Cfg) (peers : List Peer) (es : List Ev) (e : Ev), CpsOk c.cps → 1 ≤ c.win →
+    let s := run c (init c peers) es
+    isPrefix (step c s e).1.log s.log = false ∨ (step c s e).1.log = s.log →
     sumWork c.tbl s.log ≤ sumWork c.tbl (step c s e).1.log
+
+theorem commonLen_take (a b : List Nat) : a.take (commonLen a b) = b.take (commonLen a b) := by
+  induction a generalizing b with
+  | nil => cases b <;> simp [commonLen]
+  | cons x xs ih =>
+    cases b with
+    | nil => simp [commonLen]
+    | cons y ys =>
+      simp only [commonLen]
+      by_cases h : x = y
+      · simp [h, ih ys]
+      · simp [h]
+
+theorem sumWork_split (t : Tbl) (l : List Nat) (k : Nat) : sumWork t l = sumWork t (l.take k) + sumWork t (l.drop k) := by
+  rw [← sumWork_append, List.take_append_drop]
+
+theorem dropWhile_known (log pre : List Nat) (h : Nat) (suf : List Nat) (hp : ∀ x ∈ pre, x ∈ log) (hn : h ∉ log) :
+    (pre ++ h :: suf).dropWhile (fun x => log.contains x) = h :: suf := by
+  induction pre with
+  | nil => simp [List.dropWhile, hn]
+  | cons a as ih =>
+    have ha : a ∈ log := hp a (List.mem_cons_self ..)
+    have hc : log.contains a = true := by simp [ha]
+    simp only [List.cons_append, List.dropWhile_cons, hc, ↓reduceIte]
+    exact ih (fun x hx => hp x (List.mem_cons_of_mem _ hx))
+
+theorem step_log_nonheaders (c : Cfg) (s : State) (e : Ev) (h : ∀ p hs, e ≠ .headers p hs) : (step c s e).1.log = s.log := by
+  cases e with
+  | newPeer p => simp only [step, newPeer]; split; rfl; exact (startSync_fields2 _).1
+  | donePeer p => simp only [step, donePeer]; split; exact (startSync_fields2 _).1; rfl
+  | peerHeight p k => rfl
+  | inv p id => simp only [step, invMsg]; split; split; rfl; rfl; rfl
+  | headers p hs => exact absurd rfl (h p hs)
+  | cfWrite stop n okk => exact (cfWrite_fields2 s stop n okk).1
+  | backlog k => rfl
+
+/-- **Work never decreases, every history** - except on a checkpoint-failure rollback (the result
+is a proper prefix of what was stored) and except in the recorded shape F16
+(`truncatedShape`, the very predicate the driver tags `reorg-truncated-at-checkpoint`). -/
+theorem C02_work_monotone_partial (c : Cfg) (ok : CpsOk c.cps) (hw : 1 ≤ c.win) (peers : List Peer) (es : List Ev) (e : Ev) :
+    let s := run c (init c peers) es
+    let s' := (step c s e).1
+    (∀ p hs, e = .headers p hs → truncatedShape c hs s.log s'.log = false) →
+    (isPrefix s'.log s.log = false ∨ s'.log = s.log) →
+    sumWork c.tbl s.log ≤ sumWork c.tbl s'.log := by
+  intro s s' htr hnp
+  have inv : Inv c s := inv_run c ok hw _ es (inv_init c ok peers)
+  by_cases hh : ∃ p hs, e = .headers p hs
+  · obtain ⟨p, hs, rfl⟩ := hh
+    have htr' := htr p hs rfl
+    have hs' : s' = (handleHeaders c s p hs).1 := rfl
+    by_cases hrem : s.log.drop (commonLen s.log s'.log) = []
+    · -- nothing removed: the old chain is a prefix of the new one
+      have hk : s.log.length ≤ commonLen s.log s'.log := by
+        have := congrArg List.length hrem; simp at this; omega
+      have ht := commonLen_take s.log s'.log
+      rw [List.take_of_length_le hk] at ht
+      rw [sumWork_split c.tbl s'.log (commonLen s.log s'.log), ← ht]; omega
+    · have hshape := replace_shape c ok hw p s inv hs (by rw [← hs']; exact hrem)
+      rw [← hs'] at hshape
+      rcases hshape with hpre | ⟨bh, h, suf, ext, pre, hlt', hk, hout, hpx, he, hp, hn, hval, hfl, hwork, _, hcase⟩
+      · rcases hnp with h1 | h1
+        · rw [hpre] at h1; cases h1
+        · exfalso; apply hrem; rw [h1, commonLen_self]; simp
+      · have hold := sumWork_split c.tbl s.log (bh + 1)
+        rcases hcase with h1 | ⟨hlt, cp, hcm, hlen, htip⟩
+        · rw [hout, h1, sumWork_append, hold]; omega
+        · -- truncated at the next checkpoint: excluded by hypothesis
+          exfalso
+          have hdw := dropWhile_known s.log pre h suf hp hn
+          have hadd : s'.log.drop (bh + 1) = h :: ext := by
+            rw [hout]
+            have : (s.log.take (bh + 1)).length = bh + 1 := by simp; omega
+            exact List.drop_left' this
+          have : truncatedShape c hs s.log s'.log = true := by
+            simp only [truncatedShape, hk, hadd, he, hdw, Bool.and_eq_true, bne_iff_ne, ne_eq,
+              List.cons_ne_nil, not_false_eq_true, decide_eq_true_eq, isPrefix, beq_self_eq_true, true_and,
+              List.length_cons, List.any_eq_true]
+            refine ⟨⟨⟨hpx, by omega⟩, hwork⟩, cp, hcm, ?_⟩
+            simp [hlen, htip]
+          rw [this] at htr'; cases htr'
+  · have : s'.log = s.log := step_log_nonheaders c s e (fun p hs he => hh ⟨p, hs, he⟩)
+    rw [this]; exact Nat.le_refl _
+
+/-! ### the F16 instance -/
+def f16Tbl : Tbl :=
+  { parent := fun i => match i with | 1 => some 0 | 3 => some 0 | 4 => some 3 | 5 => some 4 | _ => none
+    work := fun i => match i with | 1 => 10 | 5 => 20 | _ => 2
+    valid := fun _ => true, fresh := fun _ => true
+    height := fun i => match i with | 1 => 1 | 3 => 1 | 4 => 2 | 5 => 3 | _ => 0 }
+/-- stored `[0, 1]` (work 2 + 10), next checkpoint at height 2 = header 4; the sync peer offers
+`[3, 4, 5]` (work 2 + 2 + 20 > 10): the reorganisation is decided on 24 > 10, but the loop breaks
+at the checkpoint and `[0, 3, 4]` (work 6) replaces `[0, 1]` (work 12). -/
+def f16Cfg : Cfg := { tbl := f16Tbl, cps := [⟨2, 4⟩], win := 8 }
+def f16Peers : List Peer := [{ id := 1, cand := true }]
+def f16Es : List Ev := [.newPeer 1, .headers 1 [1]]
+
+theorem f16_cpsOk : CpsOk f16Cfg.cps := ⟨by simp [f16Cfg], by simp [f16Cfg]⟩
+
+example : (run f16Cfg (init f16Cfg f16Peers) f16Es).log = [0, 1] := by decide
+example : (step f16Cfg (run f16Cfg (init f16Cfg f16Peers) f16Es) (.headers 1 [3, 4, 5])).1.log = [0, 3, 4] := by decide
+example : truncatedShape f16Cfg [3, 4, 5] [0, 1] [0, 3, 4] = true := by decide
+
+/-- **`C02_work_monotone` is false on the code as it is (F16).** -/
+theorem C02_work_monotone_counterexample : ¬ C02_work_monotone := by
+  intro h
+  have := h f16Cfg f16Peers f16Es (.headers 1 [3, 4, 5]) f16_cpsOk (by decide) (Or.inl (by decide))
+  exact absurd this (by decide)
+
+/-- **`C02_replace_only_heavier` is false on the code as it is (same instance).** -/
+theorem C02_replace_only_heavier_counterexample : ¬ C02_replace_only_heavier := by
+  intro h
+  have := h f16Cfg f16Peers f16Es 1 [3, 4, 5] f16_cpsOk (by decide) (by decide) (by decide)
+  exact absurd this.2.1 (by decide)
 
 /-! Non-vacuity -/
 def exTbl2 : Tbl :=
